@@ -172,5 +172,141 @@ theorem concat_byname (arange : Nat → List κ) {ds : List (Data κ α)} {dim :
       rw [List.getElem?_eq_getElem hk']
       simp only [List.getElem_map]
 
+theorem mem_eraseAt_idxOf_of_ne {l : List String} {x y : String} (hx : x ∈ l) (hne : x ≠ y) :
+    x ∈ eraseAt l (l.idxOf y) := by
+  induction l with
+  | nil => cases hx
+  | cons a t ih =>
+    by_cases hay : a = y
+    · subst hay
+      rcases List.mem_cons.1 hx with rfl | hx'
+      · exact absurd rfl hne
+      · simpa [List.idxOf_cons_self, eraseAt] using hx'
+    · have : (a :: t).idxOf y = t.idxOf y + 1 := by
+        simp [List.idxOf_cons, hay]
+      rw [this]
+      simp only [eraseAt, List.mem_cons]
+      rcases List.mem_cons.1 hx with rfl | hx'
+      · exact Or.inl rfl
+      · exact Or.inr (ih hx')
+
+/-- concatenate: the receiver's block keeps its labels, the other operand's block is appended along `dim`
+    with its own coordinates, matched BY NAME whatever the operand's axis order was -/
+theorem concatenate_byname {d b r : Data κ α} {dim : String} (h : d.Consistent) (hb : b.Consistent)
+    (hr : d.concatenate b dim = .ok r) :
+    r.dims = d.dims ∧ r.coord dim = d.coord dim ++ b.coord dim ∧ (∀ nm, nm ≠ dim → r.coord nm = d.coord nm) ∧
+    ∀ ℓ : String → Nat, (∀ nm ∈ d.dims, nm ≠ dim → ℓ nm < d.ext nm) → ℓ dim < d.ext dim + b.ext dim →
+      r.getN ℓ = if ℓ dim < d.ext dim then d.getN ℓ
+                 else b.getN (fun x => if x = dim then ℓ dim - d.ext dim else ℓ x) := by
+  unfold concatenate at hr
+  split at hr
+  · cases hr
+  · rename_i hdb
+    have hdb : dim ∈ b.dims := by simpa using hdb
+    split at hr
+    · cases hr
+    · rename_i hdm
+      have hdm : dim ∈ d.dims := by simpa using hdm
+      simp only [bind, Except.bind] at hr
+      cases hq : b.reorder d.dims with
+      | error e => rw [hq] at hr; cases hr
+      | ok b' =>
+        rw [hq] at hr
+        simp only at hr
+        split at hr
+        · cases hr
+        · rename_i hoff
+          have hoff : eraseAt b'.values.shape (d.index dim) = eraseAt d.values.shape (d.index dim) := by
+            simpa using hoff
+          simp only [Except.ok.injEq] at hr
+          subst hr
+          obtain ⟨hbd, _, hsub⟩ := reorder_eq_permuted hq
+          have hperm : (dedup (d.dims ++ b.dims)).Perm b.dims := dedup_append_perm hb.1 hsub
+          obtain ⟨hb'c, hb'coord, hb'get⟩ := permuted_spec hb hperm
+          rw [← hbd] at hb'c hb'coord hb'get
+          obtain ⟨rr, hpre⟩ := dedup_append_prefix b.dims h.1
+          have hbdims0 : b'.dims = d.dims ++ rr := by rw [hbd]; exact hpre
+          have hax : d.index dim < d.dims.length := index_lt hdm
+          -- same rank ⇒ same dims
+          have hlen : b'.values.shape.length = d.values.shape.length := by
+            have h1 := congrArg List.length hoff
+            rw [eraseAt_length _ _ (by rw [hb'c.shape_len, hbdims0]; simp; omega),
+                eraseAt_length _ _ (by rw [h.shape_len]; exact hax)] at h1
+            have : 0 < b'.values.shape.length := by rw [hb'c.shape_len, hbdims0]; simp; omega
+            have : 0 < d.values.shape.length := by rw [h.shape_len]; omega
+            omega
+          have hbdims : b'.dims = d.dims := by
+            have : rr = [] := by
+              apply List.length_eq_zero_iff.1
+              have := hlen
+              rw [hb'c.shape_len, h.shape_len, hbdims0, List.length_append] at this
+              omega
+            rw [hbdims0, this, List.append_nil]
+          have hidx : b'.index dim = d.index dim := by unfold index; rw [hbdims]
+          have hpermdb : b.dims.Perm d.dims := by rw [← hbdims, hbd]; exact hperm.symm
+          -- extents off the axis agree
+          have hext : ∀ nm ∈ d.dims, nm ≠ dim → b'.ext nm = d.ext nm := by
+            intro nm hnm hne
+            rw [hb'c.shape_named, h.shape_named, hbdims, ← eraseAt_map, ← eraseAt_map] at hoff
+            have hmem : nm ∈ eraseAt d.dims (d.index dim) := mem_eraseAt_idxOf_of_ne hnm hne
+            exact List.map_inj_left.1 hoff nm hmem
+          have hextb : ∀ nm ∈ b.dims, b'.ext nm = b.ext nm := by
+            intro nm hnm
+            have hnm' : nm ∈ b'.dims := by rw [hbdims]; exact hpermdb.mem_iff.1 hnm
+            rw [hb'c.ext_eq hnm', hb.ext_eq hnm, hb'coord nm hnm]
+          have hk : d.index dim < d.coords.length := by rw [h.2.1]; exact hax
+          refine ⟨rfl, ?_, ?_, ?_⟩
+          · show (setAt d.coords (d.index dim) _).getD (d.index dim) [] = _
+            rw [setAt_getD_self _ _ _ _ hk, hb'coord dim hdb]
+          · intro nm hnm
+            show (setAt d.coords (d.index dim) _).getD (d.index nm) [] = _
+            have hne : d.index nm ≠ d.index dim := by
+              unfold index
+              by_cases hmem : nm ∈ d.dims
+              · intro e; apply hnm
+                have := congrArg (fun k => d.dims.getD k "") e
+                simpa [List.getD, List.idxOf_lt_length_iff.2 hmem, List.idxOf_lt_length_iff.2 hdm] using this
+              · have := List.idxOf_eq_length_iff.2 hmem
+                have := List.idxOf_lt_length_iff.2 hdm
+                omega
+            exact setAt_getD_ne _ _ _ _ _ hne
+          · intro ℓ hℓ hℓd
+            have hnb : b'.values.shape.getD (d.index dim) 0 = b.ext dim := by
+              rw [← hidx]; exact hextb dim hdb
+            simp only [getN, concatAxis]
+            rw [hnb]
+            have hshape : setAt d.values.shape (d.index dim) (d.values.shape.getD (d.index dim) 0 + b.ext dim)
+                = d.dims.map (fun x => if x = dim then d.ext dim + b.ext dim else d.ext x) := by
+              rw [h.shape_named]
+              have e1 : (d.dims.map d.ext).getD (d.index dim) 0 = d.ext dim := getD_map_named hdm d.ext
+              rw [e1]
+              exact setAt_map_named h.1 hdm d.ext _
+            rw [hshape, Arr.get_ofFn]
+            · rw [show (d.dims.map ℓ).getD (d.index dim) 0 = ℓ dim from getD_map_named hdm ℓ]
+              show (if ℓ dim < d.ext dim then _ else _) = _
+              split
+              · rfl
+              · rename_i hge
+                rw [show d.index dim = d.dims.idxOf dim from rfl, setAt_map_named h.1 hdm ℓ]
+                show b'.values.get (d.dims.map (fun x => if x = dim then ℓ dim - d.ext dim else ℓ x))
+                    = b.getN (fun x => if x = dim then ℓ dim - d.ext dim else ℓ x)
+                have : b'.values.get (d.dims.map (fun x => if x = dim then ℓ dim - d.ext dim else ℓ x))
+                    = b'.getN (fun x => if x = dim then ℓ dim - d.ext dim else ℓ x) := by
+                  unfold getN; rw [hbdims]
+                rw [this]
+                apply hb'get
+                intro nm hnm
+                have hnmd : nm ∈ d.dims := hpermdb.mem_iff.1 hnm
+                by_cases hnd : nm = dim
+                · subst hnd; simp only [if_true]; omega
+                · simp only [hnd, if_false]
+                  rw [← hextb nm hnm, hext nm hnmd hnd]
+                  exact hℓ nm hnmd hnd
+            · rw [InB_map_iff]
+              intro x hx
+              by_cases hxd : x = dim
+              · subst hxd; simpa using hℓd
+              · simpa [hxd] using hℓ x hx hxd
+
 end Data
 end Dnp
